@@ -68,6 +68,30 @@ func concatClosure(w *World) []*ssa.Function {
 			}
 		})
 	}
+	// … and the built-in table: functions stored into a package-level map of package internal at init
+	var inits []*ssa.Function
+	if pk := w.ByPath[modPath+"/internal"]; pk != nil {
+		if sp := w.Prog.Package(pk.Types); sp != nil {
+			if f := sp.Func("init"); f != nil {
+				inits = append(inits, f) // the synthetic initializer: package-level var initialisers live here
+			}
+		}
+	}
+	for _, fn := range inits {
+		instrs(fn, func(in ssa.Instruction) {
+			mu, ok := in.(*ssa.MapUpdate)
+			if !ok {
+				return
+			}
+			v := mu.Value
+			if mi, ok := v.(*ssa.MakeInterface); ok {
+				v = mi.X
+			}
+			if g := staticCalleeOfValue(v); g != nil && w.inRepo(g) {
+				roots = append(roots, g)
+			}
+		})
+	}
 	reach := w.reachableFrom(roots...)
 	var out []*ssa.Function
 	for f := range reach {
@@ -189,6 +213,7 @@ func runC14(w *World, r *Report) {
 				}
 				r.Check(bad == "", "C14.accumulate-only", fmt.Sprintf("%s: accumulated text #%d is stored as built", w.fname(fn), nText), c.Pos(), "Builder.String() used as it is", "the accumulated text is passed through "+bad+" before it is stored: what that call removes or rewrites at the ends of a PARTIAL result is interior to the whole — concatenating a prefix first and then the rest gives a different string than concatenating everything at once (white space at a fragment boundary inside a JSON argument string)")
 			})
+			nText += piecesAsTheyCame(w, r, "C14.accumulate-only", fn, nText)
 			// (b)
 			for _, fw := range fieldWrites(fn) {
 				if fw.kind != "store" || fw.owner == nil {
@@ -533,8 +558,55 @@ func runC14(w *World, r *Report) {
 }
 
 var c14BoundsExceptions = map[string]string{
+	"internal.useLast: s[len(s) - 1]":                             "a registered concat function is only ever called with at least two chunks: concatSliceValue answers a one-element slice itself before it looks up the function, concatMaps builds one list per key that occurs (so never an empty one), and ConcatItems' callers (concatStreamReader, ConcatMessages) test the length first — an index of len-1 on a non-empty slice",
 	"schema.concatToolCalls: chunks[range-value[0]]":              "the group lists hold positions of `chunks` recorded by the first loop (`for i := range chunks { m[*index] = append(m[*index], i) }`): a data invariant of the function, not a guard; chunks is not resliced in between",
 	"schema.concatToolCalls: chunks[range-value[rangeindex + 1]]": "same: the ranged values are positions recorded from `for i := range chunks`",
 	"schema.concatToolCalls$1: merged[i]":                         "less function of sort.SliceStable(merged, …): the sort package calls it with 0 <= i, j < len(merged)",
 	"schema.concatToolCalls$1: merged[j]":                         "less function of sort.SliceStable(merged, …): the sort package calls it with 0 <= i, j < len(merged)",
+}
+
+// piecesAsTheyCame: what goes INTO a strings.Builder in fn is a piece as it came — no strings.* / bytes.* / unicode
+// rewriting of a chunk before it is appended (a rune cut by a chunk boundary is two invalid halves of one valid
+// character). Returns the number of WriteString sites seen.
+func piecesAsTheyCame(w *World, r *Report, rule string, fn *ssa.Function, base int) int {
+	nText := base
+	// (a') what goes INTO a builder is a piece as it came: no strings.* / bytes.* / utf8 rewriting of a chunk before
+	// it is appended (a rune cut by a chunk boundary is two invalid halves that make one valid character)
+	instrs(fn, func(in ssa.Instruction) {
+		c, ok := in.(*ssa.Call)
+		if !ok || calleeFullName(c) != "(*strings.Builder).WriteString" {
+			return
+		}
+		nText++
+		bad := ""
+		seen := map[ssa.Value]bool{}
+		var walk func(v ssa.Value, d int)
+		walk = func(v ssa.Value, d int) {
+			if v == nil || d > 8 || seen[v] || bad != "" {
+				return
+			}
+			seen[v] = true
+			switch x := v.(type) {
+			case *ssa.Call:
+				if name := calleeFullName(x); strings.HasPrefix(name, "strings.") || strings.HasPrefix(name, "bytes.") || strings.HasPrefix(name, "unicode/") {
+					bad = name
+				}
+			case *ssa.Phi:
+				for _, e := range x.Edges {
+					walk(e, d+1)
+				}
+			case *ssa.UnOp:
+				if al, ok := x.X.(*ssa.Alloc); ok {
+					for _, ref := range *al.Referrers() {
+						if st, ok := ref.(*ssa.Store); ok && st.Addr == ssa.Value(al) {
+							walk(st.Val, d+1)
+						}
+					}
+				}
+			}
+		}
+		walk(c.Call.Args[1], 0)
+		r.Check(bad == "", rule, fmt.Sprintf("%s: piece #%d is appended as it came", w.fname(fn), nText), c.Pos(), "the argument of WriteString is not the result of a rewriting call", "a piece is passed through "+bad+" before it is appended: a transformation that looks at one chunk sees as damage what is merely cut — a multi-byte character split by a chunk boundary becomes two replacement characters, so the concatenation of a tool's streamed output differs from the output (and from what concatenating other cuts of it gives)")
+	})
+	return nText - base
 }
